@@ -40,7 +40,7 @@ def gen_case(rng, dims=None):
     data = np.array([rng.randint(-40, 40) / 4 for _ in range(F * P * N * dims)], dtype=np.float32)
     # confidences: mostly in (0, 1]; some tiny ones next to large ones (a cubic resampling then undershoots below 0), a few negative ones (the v0.0 reader
     # and test fixtures produce them): "missing" is confidence == 0, nothing else
-    conf = np.array([0.0 if rng.random() < 0.35 else rng.choice([1.0, 0.5, 0.25, 0.9, 0.05, 0.05, -0.5]) for _ in range(F * P * N)], dtype=np.float32).reshape(F, P, N)
+    conf = np.array([0.0 if rng.random() < 0.35 else rng.choice([1.0, 0.5, 0.25, 0.9, 0.05, 0.05, -0.5, 1e-9]) for _ in range(F * P * N)], dtype=np.float32).reshape(F, P, N)
     r = rng.random()
     if r < 0.2 and len(comps) > 1:                       # a whole component missing
         off = 0; k = rng.randrange(len(comps))
@@ -290,7 +290,8 @@ def run(ctx):
             data = pc.bits_to_f32(b["data"], (F, P, N, b["dims"])).copy()
             data[:, :, p2, 0] += 3.0                                                      # the two reference points are apart
             b["data"] = pc.f32_to_bits(data)
-            k1, f1 = rng.choice([("special", list(SPECIAL[k])) for k in SPECIAL if k != "finite"]); k2, f2 = gen_fill(rng)
+            k1, f1 = rng.choice([(k, list(SPECIAL[k])) for k in SPECIAL if k not in ("finite", "zeros")])
+            k2, f2 = "finite", pc.f32_to_bits(np.array([rng.randint(-400, 400) / 8 for _ in range(7)], dtype=np.float32))
             case["fill1"], case["fill2"], case["fills"] = f1, f2, [k1, k2]
             op = {"k": "normalize", "p1": p1, "p2": p2, "scale": 1} if opk == "normalize" else {"k": opk, "axis": [0, 1]}
             case["ops"] = ([{"k": "to_tf"}] if be == "numpy_with_tf" else []) + [op]
@@ -298,6 +299,45 @@ def run(ctx):
             case["masked_input"] = None
             case["planned"] = "reference point missing in one frame"
             plan["tf" if be in ("tf", "numpy_with_tf") else be].append(case)
+    # planned, every run: single COORDINATES of observed points marked missing (a mask that is not uniform over the coordinate axis — user code masking a depth, a
+    # representation masking an undefined angle): the statistics of the normalisers must leave such frames out like any other missing slot
+    for be in ("tf", "tf", "torch", "numpy", "tf", "numpy"):
+        for opk in ("normalize", "normalize_distribution", "zero_filled"):
+            case = gen_case(rng)
+            tries = 0
+            while (case["body"]["frames"] < 3 or case["body"]["points"] < 2) and tries < 80:
+                case = gen_case(rng); tries += 1
+            b = case["body"]
+            if b["frames"] < 3 or b["points"] < 2:
+                continue
+            F, P, N, D = b["frames"], b["people"], b["points"], b["dims"]
+            conf = pc.bits_to_f32(b["conf"], (F, P, N)).copy()
+            p1, p2 = rng.sample(range(N), 2)
+            conf[:, :, [p1, p2]] = 1.0
+            b["conf"] = pc.f32_to_bits(conf)
+            data = pc.bits_to_f32(b["data"], (F, P, N, D)).copy(); data[:, :, p2, 0] += 3.0
+            b["data"] = pc.f32_to_bits(data)
+            f0 = rng.randrange(F - 1)
+            case["extra_mask"] = [[f0, rng.randrange(P), rng.choice([p1, p2]), rng.randrange(D)]]
+            k1, f1 = rng.choice([(k, list(SPECIAL[k])) for k in SPECIAL if k not in ("finite", "zeros")])
+            k2, f2 = "finite", pc.f32_to_bits(np.array([rng.randint(-400, 400) / 8 for _ in range(7)], dtype=np.float32))
+            case["fill1"], case["fill2"], case["fills"] = f1, f2, [k1, k2]
+            if opk == "zero_filled":
+                op = {"k": "zero_filled"}
+            elif opk == "normalize":
+                if be == "torch":
+                    continue                               # torch poses offer no normalize
+                op = {"k": "normalize", "p1": p1, "p2": p2, "scale": 1}
+            else:
+                if be == "torch":
+                    continue
+                op = {"k": opk, "axis": [0, 1]}
+            case["ops"] = [op]
+            case["backend"] = be
+            case["masked_input"] = None
+            case["planned"] = "a single coordinate of an observed reference point marked missing"
+            case["no_model"] = True
+            plan["tf" if be == "tf" else be].append(case)
     plan["numpy"].insert(0, k4_witness())
     results = []
     for be in ("numpy", "torch"):
@@ -354,7 +394,7 @@ def run(ctx):
                 if c["ops"][i]["k"] == "zero_filled" and "error" not in stp["body"] and not stp["body"]["raw_at_missing_zero"]:
                     ctx.violation("zero_filled leaves a value other than 0 at a missing point", info, {"step": i + 1, "fills": c["fills"]}, True, signature={"clause": "zero_filled", "backend": be})
         # the Lean model on both fillings (numpy prefix)
-        if be == "numpy":
+        if be == "numpy" and not c.get("no_model"):
             mops = to_model_ops(c, c["ops"])
             if mops:
                 for tag in ("fill1", "fill2"):
